@@ -147,7 +147,7 @@ def _serialize_region_fits(region):
                        component)
 
 
-def _make_column(arrays):
+def _make_column(arrays, pad_mode='constant'):
     arr_sizes = [arr.size for arr in arrays]
     arr_size = np.max(arr_sizes)
 
@@ -155,7 +155,7 @@ def _make_column(arrays):
     for (arr, size) in zip(arrays, arr_sizes, strict=True):
         pad_width = arr_size - size
         if pad_width != 0:
-            arr = np.pad(arr, (0, pad_width), mode='constant')
+            arr = np.pad(arr, (0, pad_width), mode=pad_mode)
         if not isinstance(arr[0], u.Quantity):
             arr <<= u.pix
         if arr_size == 1 and pad_width == 0:
@@ -195,7 +195,12 @@ def _make_table(region_data):
 
     for attr in attrs:
         arrays = [getattr(data, attr) for data in region_data]
-        if attr not in ('shape',):
+        if attr in ('x', 'y'):
+            # pad polygon vertices by repeating the last vertex (which
+            # does not change the polygon) instead of adding (0, 0)
+            # vertices
+            arrays = _make_column(arrays, pad_mode='edge')
+        elif attr not in ('shape',):
             arrays = _make_column(arrays)
         tbl[attr.upper()] = arrays
 
